@@ -10,6 +10,7 @@ package allocator
 
 import (
 	"fmt"
+	"strings"
 	"math"
 	"math/big"
 	"math/rand"
@@ -82,6 +83,9 @@ func gGenPools(r *rand.Rand, big bool) []gPool {
 		lib = append([]string{}, gCidrBig...)
 	}
 	r.Shuffle(len(lib), func(i, j int) { lib[i], lib[j] = lib[j], lib[i] })
+	// one layout in four: every pool is single-family and pinned with a priority, so that
+	// PreferDualStack requests fall back to "primary family only" and the order among such pools matters
+	singleFam := !big && r.Intn(4) == 0
 	names := append([]string{}, gPoolNames...)
 	r.Shuffle(len(names), func(i, j int) { names[i], names[j] = names[j], names[i] })
 	var out []gPool
@@ -90,10 +94,21 @@ func gGenPools(r *rand.Rand, big bool) []gPool {
 		p := gPool{Name: names[i], Avoid: r.Intn(3) == 0, Auto: r.Intn(5) != 0}
 		nc := 1 + r.Intn(3)
 		for c := 0; c < nc && k < len(lib); c++ {
+			if singleFam && len(p.CIDRs) > 0 && strings.Contains(lib[k], ":") != strings.Contains(p.CIDRs[0], ":") {
+				k++
+				c--
+				continue
+			}
 			p.CIDRs = append(p.CIDRs, lib[k])
 			k++
 		}
-		if r.Intn(2) == 0 {
+		if len(p.CIDRs) == 0 {
+			continue
+		}
+		if singleFam {
+			p.Auto = true
+			p.Pin = &gPin{Prio: r.Intn(4), Nss: []string{"ns1", "ns2"}}
+		} else if r.Intn(2) == 0 {
 			pin := &gPin{Prio: r.Intn(4)}
 			switch r.Intn(3) {
 			case 0:
@@ -165,7 +180,7 @@ func gGenReq(r *rand.Rand, svc string) *gReq {
 	case 4:
 		q.Fam, q.Pol = "dual", "prefer"
 	default:
-		q.Fam, q.Pol = "dual", "require"
+		q.Fam, q.Pol = "dual", []string{"require", "prefer"}[r.Intn(2)]
 	}
 	if r.Intn(12) == 0 { // PreferDualStack on a single-family cluster
 		q.Pol = "prefer"
@@ -863,6 +878,25 @@ func gRunHistory(out *vOut, r *rand.Rand, id int, big bool) {
 					for _, p := range pinnedOK {
 						if key(p) < key(gp) && op.Req.Pol != "prefer" {
 							fail("alloc-priority-order", fmt.Sprintf("%s got pool %s (prio %d) although pool %s (prio %d) could serve it", op.Svc, got, gp.Pin.Prio, p.Name, p.Pin.Prio))
+						}
+					}
+					if op.Req.Pol == "prefer" && op.Req.Fam == "dual" {
+						// PreferDualStack: a pinned pool of strictly better priority that offers at least the
+						// same families as the result should have been taken instead
+						for _, p := range o.pools {
+							if !p.Auto || !oPinnedTo(p, op.Req) || key(p) >= key(gp) {
+								continue
+							}
+							h4, h6 := o.oHasFree(a, p, op.Svc, op.Req, true), o.oHasFree(a, p, op.Svc, op.Req, false)
+							better := false
+							if len(resIPs) == 2 {
+								better = h4 && h6
+							} else if len(resIPs) == 1 {
+								better = (resIPs[0].To4() != nil && h4) || (resIPs[0].To4() == nil && h6)
+							}
+							if better {
+								fail("alloc-priority-order", fmt.Sprintf("%s (PreferDualStack) got %v from pool %s (prio %d) although pinned pool %s (prio %d) offers the same families", op.Svc, resIPs, got, gp.Pin.Prio, p.Name, p.Pin.Prio))
+							}
 						}
 					}
 				}
